@@ -235,6 +235,11 @@ class ListField(Field):
             return value
 
         proxy = ListProxy(cfg, self, value)
+        for item in proxy:
+            if isinstance(item, Config):
+                # items taken over from a list of another field of this configuration belong here now
+                item._container = proxy
+                item._key = self._key
         return proxy
 
     def to_basic(self, cfg: Config, value: Union[list, ListProxy]) -> list:
